@@ -193,6 +193,17 @@ def run_late(case, ctx):
                 print('not reached: n', n, 'trace len', len(tr2), [e for e in tr2 if e[2] == '_fetch_results'][:12])
             out.excluded = 'landing point not reached'
             return out
+        # the landing is addressed by an event count taken from a census run: make sure it is where it is meant to be
+        ok_site = False
+        for fr in r.get('stack', []):
+            if remote and fr[1] == '_fetch_results' and 'self._user_state = recv_msg' in _src_line(fr[0], fr[2]):
+                ok_site = True
+            if not remote and fr[0] == 'process.py' and fr[1] == '_run':
+                put_line = next((i + 1 for i, l in enumerate(_src_cache.get('process.py') or [_src_line('process.py', 1)] and _src_cache['process.py']) if 'child_end.put(((True' in l), None)
+                ok_site = put_line is not None and fr[2] > put_line
+        if not ok_site:
+            out.excluded = 'landing drifted away from the intended point (event count differs from the census)'
+            return out
         out.label('late_landing_reached')
         out.nontrivial = True
         time.sleep(0.05)
